@@ -229,7 +229,15 @@ def gen_c09_client(ctx):
         yield line(c0, start(rng, cfg, login=False) + ["get:%s:ok:-@E/%s,%s,Dsend:h61::c" % (H(a), R(b"150 ok"), R(b"226 ok")),
                                                         "put:STOR:%s:h61:-:ok:-@E/%s,%s,Drecv:-:c" % (H(a), R(b"150 ok"), R(b"226 ok")),
                                                         "list:%s:0@E/%s,%s,Dsend:h61::c" % (H(a), R(b"150 ok"), R(b"226 ok"))])
-    ctx["scopes"].append("every text-taking call x injection strings %s and harmless strings" % [b.decode("latin-1") for b in bad])
+    # a command whose write fails (the server has hung up: 421 closed the connection), then the same client object is used again:
+    # the failed line must not travel with the first command of the new session
+    for nm in names + ["noop", "pwd"]:
+        for relogin in (0, 1):
+            cfg = Cfg(rng, "C09"); c0 = str(cfg)
+            first = ("%s:%s" % (nm, H(b"victim.txt"))) if nm in names else nm
+            again = op_connect(rng, cfg, user=(b"alice", b"secret")) if relogin else op_connect(rng, cfg)
+            yield line(c0, start(rng, cfg, login=False) + [op_simple(rng, cfg, "noop", 421), first, "isconn", first, "disc:0", again, op_simple(rng, cfg, "noop", 200), op_disc(rng, cfg, True)])
+    ctx["scopes"].append("every text-taking call x injection strings %s and harmless strings; commands whose write fails (connection closed by 421) followed by a new session on the same client" % [b.decode("latin-1") for b in bad])
     for _ in range(n_of(ctx, 300, 4000)):
         cfg = Cfg(rng, "C09"); c0 = str(cfg)
         a = rng.bytes(rng.range(0, 12)) if rng.chance(1, 2) else rng.bytes(rng.range(0, 12), alphabet=b"ab \r\n\x00")
